@@ -26,16 +26,43 @@ def setup() -> int:
                 print(f"[setup] generate {p}: {e}")
             import shutil
             shutil.rmtree(ck.scratch, ignore_errors=True)
-    rc, out = common.make([], timeout=3000)
+    # -k: one property's broken file must not keep the others from being built; each check rebuilds and
+    # reports its own closure anyway (a proof that does not build is a broken obligation of that check).
+    with common.coq_lock():
+        common.write_coqproject()
+        rc, out = common.sh(["timeout", "3000", "make", "-k", "-j", str(common.NPROC), "--no-print-directory"],
+                            cwd=common.COQ, timeout=3100)
     print(out[-6000:])
     if rc != 0:
-        print("[setup] coq build failed")
+        print("[setup] WARNING: some Coq files did not build (see above); the checks depending on them will report it")
+    if not os.path.exists(os.path.join(common.THEORIES, "Base", "Exn.vo")):
+        print("[setup] Base/Exn.vo missing: the Coq toolchain is not usable")
         rc_all = 1
     bad = common.scan_forbidden()
     if bad:
-        print("[setup] forbidden constructs:", bad)
-        rc_all = 1
+        print("[setup] WARNING: forbidden constructs in the development:", bad[:10])
     return rc_all
+
+
+def audit() -> int:
+    """Whole-development audit: global scan for Admitted/Axiom/..., full build, coqchk -o on every Property.vo."""
+    rc_all = 0
+    bad = common.scan_forbidden()
+    print("forbidden constructs:", bad or "none")
+    if bad:
+        rc_all = 1
+    rc, out = common.make([], timeout=3000)
+    if rc != 0:
+        print(out[-3000:])
+        rc_all = 1
+    mods = []
+    for d in sorted(os.listdir(common.THEORIES)):
+        if os.path.exists(os.path.join(common.THEORIES, d, "Property.vo")):
+            mods.append(f"IRV.{d}.Property")
+    rc, out = common.sh(["timeout", "3000", "coqchk", "-silent", "-o", "-Q", "theories", "IRV"] + mods,
+                        cwd=common.COQ, timeout=3100)
+    print(out[-6000:])
+    return rc_all or (1 if rc != 0 else 0)
 
 
 def main(argv: list[str]) -> int:
@@ -44,6 +71,8 @@ def main(argv: list[str]) -> int:
         return 2
     if argv[0] == "--setup":
         return setup()
+    if argv[0] == "--audit":
+        return audit()
     prop = argv[0].upper()
     seed = int(os.environ.get("VERIF_SEED", "0") or 0)
     mod = importlib.import_module(f"harness.props.{prop.lower()}")
